@@ -362,7 +362,7 @@ define_function(data_serial_correlation)
       for (i = 0; i < data_len; i++)
       {
         sccun = (double) *(block_data + data_offset + i);
-        if (i == 0)
+        if (i == 0 && !past_first_block)
         {
           sccfirst = sccun;
         }
@@ -451,7 +451,10 @@ define_function(data_monte_carlo_pi)
   double INCIRC = pow(pow(256.0, 3.0) - 1, 2.0);
   double mpi = 0;
 
+  unsigned int monte[6];
+
   size_t i;
+  size_t k = 0;
 
   int64_t offset = integer_argument(1);
   int64_t length = integer_argument(2);
@@ -470,8 +473,6 @@ define_function(data_monte_carlo_pi)
   {
     if (offset >= block->base && offset < block->base + block->size)
     {
-      unsigned int monte[6];
-
       size_t data_offset = (size_t) (offset - block->base);
       size_t data_len = (size_t) yr_min(
           length, (size_t) (block->size - data_offset));
@@ -484,11 +485,11 @@ define_function(data_monte_carlo_pi)
       offset += data_len;
       length -= data_len;
 
-      for (i = 0; i < data_len; i++)
+      for (i = 0; i < data_len; i++, k++)
       {
-        monte[i % 6] = (unsigned int) *(block_data + data_offset + i);
+        monte[k % 6] = (unsigned int) *(block_data + data_offset + i);
 
-        if (i % 6 == 5)
+        if (k % 6 == 5)
         {
           double mx = 0;
           double my = 0;
